@@ -46,6 +46,11 @@ def lit_text(v):
     t = v[0]
     if t == "i":
         return v[1]
+    if t == "f" and len(v) > 2:
+        return v[2]          # a spelled decimal literal: the value is float(v[2]), correctly rounded
+    if t == "s" and len(v) > 2:
+        assert v[2] not in v[1]
+        return v[2] + v[1] + v[2]
     if t == "f":
         x = struct.unpack("<d", struct.pack("<Q", int(v[1])))[0]
         s = repr(x)
